@@ -1,8 +1,9 @@
 """C10 — revert is an exact, once-only inverse."""
 from checks.enginelib import *
+from checks import stresslib
 
 META = {
-    "text": 'Lean: Guard instantiated for revert targets: revert_at_most_once, revert_needs_unreverted, reverted_is_final (a persisted revert is seen by every later lookup and no further revert of the target is accepted); posting lists: reverse (model of Postings.Reverse), reverse_shape, reverse_getElem, reverse_involutive, revert_restores (ps ++ reverse ps leaves every balance where it stood), revert_restores_after_history; unforced reverts through the Floor component. Tie: trace validation (guard-revert, floor); differential of Postings.Reverse is covered by the durable-log oracle (reverse shape).',
+    "text": 'Lean: Guard instantiated for revert targets: revert_at_most_once, revert_needs_unreverted, reverted_is_final (a persisted revert is seen by every later lookup and no further revert of the target is accepted); posting lists: reverse (model of Postings.Reverse), reverse_shape, reverse_getElem, reverse_involutive, revert_restores (ps ++ reverse ps leaves every balance where it stood), revert_restores_after_history; unforced reverts through the Floor component. Tie: trace validation (guard-revert, floor); differential of Postings.Reverse is covered by the durable-log oracle (reverse shape). Stage 2, the reservation primitive (Referencer.take, no scheduling point inside): area engstress — goroutines released together by a spinning barrier call the real take with one key (exactly one may win) and the real Commander with simultaneous reverts of one transaction (one accepted, one entry); a bounded search, rates and processors in coverage.stress.',
     "note": "Trusted: Lean kernel; event extraction. The reverted flag of the SQL store is C04's business.",
     "technique": 'Lean 4 proof (Guard invariant + list lemmas) + trace validation + revert oracle + regenerated commander skeleton (extract/commander -> Generated/Commander.lean on every run): well-formedness of every control path by decide, refinement of this component by the interpreted skeleton under every schedule, observed runs re-executed in the skeleton system',
     "design_ref": '5 (C10)',
@@ -10,4 +11,13 @@ META = {
 
 
 def run(ctx):
+    area = stresslib.replay_area(ctx)
+    if area == stresslib.AREA:       # a replay of the stress stage: the bounded search alone
+        ctx.l1()
+        stresslib.run_stress(ctx, 'C10')
+        return
     run_check(ctx, 'C10', ["guard-revert", "floor"], lambda scn, run: any(q["kind"] == "revert" for q in scn["requests"]), 'the scenario contains a revert')
+    if area is not None:
+        return
+    # stage 2: the reservation primitive (no scheduling point inside) under truly simultaneous goroutines
+    stresslib.run_stress(ctx, 'C10')
